@@ -263,7 +263,8 @@ def load_hdf5(path, meta_only=False):
                     parms.loads(val)
                     val = parms
                 elif key == "preprocessing":
-                    val = val.split(",")
+                    # (an empty list is stored as an empty string)
+                    val = val.split(",") if len(val) else []
                 elif key in ["preprocessing_options", "method_kws"]:
                     val = json.loads(val)
                 elif key == "range_x":
@@ -318,15 +319,23 @@ def save_hdf5(h5path, indent, user_rate, user_name, user_comment, h5mode="a"):
         # store indentation data along with the user rate
         ana = h5.require_group("analysis")
         idd = "{}_{}".format(dhash, indent.enum)
+        if idd in ana and "fit" not in ana[idd]:
+            # Incomplete entry (e.g. a previous save was interrupted);
+            # such entries are ignored when loading - start over.
+            del ana[idd]
         if idd in ana:
             # Only allow overriding of user data if fit matches.
             # Otherwise, the rating might be wrong.
-            if not np.allclose(indent["fit"], ana[idd]["fit"], equal_nan=True):
+            # (No absolute tolerance: forces are of the order of 1e-9.)
+            if not np.allclose(indent["fit"], ana[idd]["fit"], equal_nan=True,
+                               atol=0):
                 raise ValueError("Cannot store rating for different fit in "
                                  "same rating container!")
             out = ana[idd]
+            new_entry = False
         else:
             out = ana.create_group(idd)
+            new_entry = True
             out.attrs["data enum"] = indent.enum
             out.attrs["data hash"] = dhash
             for key in indent.fit_properties:
@@ -338,12 +347,11 @@ def save_hdf5(h5path, indent, user_rate, user_name, user_comment, h5mode="a"):
                 elif key in ["preprocessing_options", "method_kws"]:
                     val = json.dumps(val)
                 elif key == "range_x":
-                    val = str(val)
+                    # (plain floats; the representation of numpy scalars
+                    # cannot be parsed when loading)
+                    val = str([float(vv) for vv in val])
                 out.attrs["fit {}".format(key)] = val
 
-            out.create_dataset("fit",
-                               data=indent["fit"][...],
-                               **dkw)
             out.create_dataset("fit range",
                                data=indent["fit range"][...],
                                **dkw)
@@ -368,6 +376,14 @@ def save_hdf5(h5path, indent, user_rate, user_name, user_comment, h5mode="a"):
         # add library versions for debugging
         out.attrs["nanite version"] = nanite_version
         out.attrs["h5py version"] = h5py.__version__
+        if new_entry:
+            # The "fit" dataset marks an entry as complete (entries without
+            # it are ignored when loading). It is written last, so that an
+            # interrupted save cannot leave behind an entry that breaks
+            # loading of the other ratings.
+            out.create_dataset("fit",
+                               data=indent["fit"][...],
+                               **dkw)
 
 
 def hdf5_rated(h5path, indent):
